@@ -17,6 +17,9 @@
 #endif
 
 #include "detail/math.hpp"
+#ifdef SMOOTH_VERIF
+#include "detail/verif_hooks.hpp"
+#endif
 #include "diff.hpp"
 #include "optim/tr_solver.hpp"
 #include "optim/tr_strategy.hpp"
@@ -135,8 +138,15 @@ SolveResult minimize(auto && f, auto && x, auto && cb, const MinimizeOptions & o
 #endif
     }
 
+#ifdef SMOOTH_VERIF
+    bool verif_accepted = false;
+#endif
+
     // step
     if (r_n == 0 || pred_red <= 0 || take_step) {
+#ifdef SMOOTH_VERIF
+      verif_accepted = true;
+#endif
       x = xp;
 
       // execute callback on updated value
@@ -149,7 +159,38 @@ SolveResult minimize(auto && f, auto && x, auto && cb, const MinimizeOptions & o
         status = SolveResult::Status::Ptol;
       }
     }
+
+#ifdef SMOOTH_VERIF
+    {
+      // one event per iteration, after the acceptance decision (no function evaluations here)
+      const double verif_vals[12] = {
+        static_cast<double>(iter),
+        r_n,
+        actu_red,
+        pred_red,
+        rho,
+        Delta,
+        lambda,
+        take_step ? 1. : 0.,
+        verif_accepted ? 1. : 0.,
+        d.cwiseProduct(dx).stableNorm(),
+        static_cast<double>(dx.size()),
+        status.has_value() ? static_cast<double>(static_cast<int>(status.value())) : -1.,
+      };
+      verif::emit_event("optim.iter", verif_vals, 12);
+    }
+#endif
   }
+
+#ifdef SMOOTH_VERIF
+  {
+    const double verif_vals[2] = {
+      static_cast<double>(static_cast<int>(status.value_or(SolveResult::Status::MaxIters))),
+      static_cast<double>(iter),
+    };
+    verif::emit_event("optim.exit", verif_vals, 2);
+  }
+#endif
 
   if (opts.verbose) {
 #ifdef SMOOTH_HAS_FMT
